@@ -50,16 +50,19 @@ def cstr(sh):
     return '"' + sh.replace('\\', '\\\\').replace('\r', '\\r').replace('\n', '\\n').replace('"', '\\"') + '"'
 def shname(sh):
     return sh.replace('\r', 'R').replace('\n', 'N').replace(' ', '_').replace(':', 'c').replace('/', 's').replace('.', 'p')
-def split(side, start, shape, cuts=None, tier='quick', timeout=900, mem_gb=6, kfs=(), nostd=False, **kw):
+def split(side, start, shape, cuts=None, tier='quick', timeout=900, mem_gb=10, kfs=(), nostd=False, nohdr=False, **kw):
     n = len(shape); obs = []
     sname = {1: 'HEADERS', 2: 'LINE', 3: 'FINALIZE'}[start]
     for cut in (cuts if cuts is not None else range(1, n)):
-        d = {'SHAPE': cstr(shape), 'START': start, 'CUT': cut, 'FM_CAP': n + 2, 'FA_CAP': n + 4, 'LOGSZ': 6 * n + 24}
+        d = {'SHAPE': cstr(shape), 'START': start, 'CUT': cut, 'FM_CAP': 2 * n + 2, 'FA_CAP': 2 * n + 4, 'LOGSZ': 6 * n + 24}
         P = 'REQ' if side == 'req' else 'RES'
-        us = ['htp_connp_%s_HEADERS.0:%d' % (P, n + 3), 'htp_connp_%s_HEADERS.1:%d' % (P, n + 2), 'htp_connp_%s_HEADERS.2:%d' % (P, n + 2), 'htp_connp_%s_LINE.0:%d' % (P, n + 3), 'htp_connp_%s_FINALIZE.0:%d' % (P, n + 3),
-              'htp_connp_%s_FINALIZE.1:%d' % (P, n + 3), 'htp_connp_%s_FINALIZE.2:%d' % (P, n + 3), 'htp_chomp.0:4', 'harness.0:%d' % (n + 2), 'harness.1:%d' % (6 * n + 26), 'evbytes.0:%d' % (n + 4), 'feed.0:9', 'strlen.0:40', 'memchr.0:%d' % (n + 2)]
+        if nohdr: d['NOHDR'] = 1
+        ml = max(len(x) for x in shape.split('\n')) + 3          # longest line incl. terminator + slack: bound of the per-line scans
+        logsz = 6 * n + 24
+        ub = [(r'^harness\.', logsz + 2), (r'^evbytes\.', n + 4), (r'^htp_connp_(REQ|RES)_', n + 3), (r'^htp_chomp\.', 4), (r'^strlen\.', 40),
+              (r'^(memchr|bstr_chr|htp_is_line_|htp_connp_is_line|htp_treat_response|bstr_util_mem_trim)', n + 2), (r'^htp_convert_method', 45), (r'^bstr_util_cmp_mem', 20)]
         flags = ['--no-standard-checks'] if nostd else []
-        obs.append(Ob('%s.split.%s.%s.cut%d' % (side, sname, shname(shape), cut), 'stream/%s_split.c' % side, units=STREAM_UNITS, models=STREAM_MODELS, remove=STREAM_RM, defines=d, unwind=n + 4, unwindset=us,
+        obs.append(Ob('%s.split.%s.%s.cut%d' % (side, sname, shname(shape), cut), 'stream/%s_split.c' % side, units=STREAM_UNITS, models=STREAM_MODELS, remove=STREAM_RM, defines=d, unwind=n + 4, unwind_by=ub,
                       restrict_by=(REQ_FP if side == 'req' else RES_FP), flags=flags, tier=tier, timeout=timeout, mem_gb=mem_gb, kfs=list(kfs), cost=60,
                       statement='merge lemma: %s_%s on this fragment delivered whole == delivered in two chunks cut at offset %d (event log: lines/headers handed on, body bytes, tx events, bytes left for the successor, flags)' % (P, sname, cut),
                       bounds='fragment shape %r (x = any field byte, y = any byte), %d bytes, cut %d' % (shape, n, cut), **kw))
